@@ -6,7 +6,13 @@ def is_side_effect_free(op):
 
 
 class Pure:
-    pass
+    """as xdsl's (frozen dataclass) trait objects: all Pure() instances are equal, so `Pure() in op.traits` works"""
+
+    def __eq__(self, other):
+        return isinstance(other, Pure)
+
+    def __hash__(self):
+        return 7
 
 
 class IsTerminator:
